@@ -111,7 +111,7 @@ def execute(spec):
         out = corr.code_outcome(lambda: webauthn.verify_authentication_response(
             credential=cred, expected_challenge=e2["challenge"], expected_rp_id=e2["rp_id"], expected_origin=e2["origin"],
             credential_public_key=e2["public_key"], credential_current_sign_count=e2["stored_count"],
-            require_user_verification=e2["require_uv"]), lambda r: (corr.canon(r), r))
+            require_user_verification=e2["require_uv"]), safe(corr.canon))
         return strip(out), raw(out), before, e2
     if kind == "verify_reg":
         c, e = x
@@ -126,13 +126,23 @@ def execute(spec):
         out = corr.code_outcome(lambda: webauthn.verify_registration_response(
             credential=cred, expected_challenge=e2["challenge"], expected_rp_id=e2["rp_id"], expected_origin=held["origin"],
             require_user_verification=False, supported_pub_key_algs=held["algs"], pem_root_certs_bytes_by_fmt=held["roots"] or None),
-            lambda r: (corr.canon(r), r))
+            safe(corr.canon))
         return strip(out), raw(out), before, held
     if kind == "gen_reg":
-        out = corr.code_outcome(lambda: _opts.call_gen_reg(x), lambda r: (_opts.canon_reg(r), r))
+        out = corr.code_outcome(lambda: _opts.call_gen_reg(x), safe(_opts.canon_reg))
         return strip(out), raw(out), None, None
-    out = corr.code_outcome(lambda: _opts.call_gen_auth(x), lambda r: (_opts.canon_auth(r), r))
+    out = corr.code_outcome(lambda: _opts.call_gen_auth(x), safe(_opts.canon_auth))
     return strip(out), raw(out), None, None
+
+
+def safe(canon):
+    """a canonicaliser that cannot crash on a result corrupted through shared state"""
+    def f(r):
+        try:
+            return (canon(r), r)
+        except Exception as ex:
+            return (f"<result cannot be canonicalised: {type(ex).__name__}: {ex}>", r)
+    return f
 
 
 def strip(out):
